@@ -1461,8 +1461,11 @@ func (o *Error) Error() string {
 
 // Equal implements Object interface.
 func (o *Error) Equal(right Object) bool {
-	if v, ok := right.(*Error); ok {
+	switch v := right.(type) {
+	case *Error:
 		return v == o
+	case *RuntimeError:
+		return v.Err == o
 	}
 	return false
 }
